@@ -17,8 +17,8 @@ EXTENDS Foreign, Json, IOUtils
 
 Trace == ndJsonDeserialize(IOEnv.WZ_OBS)
 
-VARIABLES l, cur, oo, wit
-tvars == <<l, cur, oo, wit>>
+VARIABLES l, cur, oo, prev, wit
+tvars == <<l, cur, oo, prev, wit>>
 
 ModelOf(p) == [parts |-> SetOf(p.parts), rels |-> SetOf(p.rels), body |-> p.body,
                ns |-> p.ns, pkgns |-> p.pkgns, hlink |-> p.hlink]
@@ -35,16 +35,20 @@ Mach(m, o) ==
   \cup (IF o.toks # BodyToks(m.body) \/ o.zip # "ok" \/ o.body # "ok" THEN {<<"MACH", "synth-body">>} ELSE {})
   \cup (IF \E p \in o.parts : p.n # CTPart /\ p.ct = "" THEN {<<"MACH", "synth-content-type">>} ELSE {})
 
-\* s = reference state after the step, o = observed foreign package
-Judge(s, o, e) ==
-  IF e.sv # "ok" THEN {<<"INFO", e.sv, e.op.op>>}   \* nothing was saved: C04 makes no claim (reported, not a verdict)
-  ELSE Viol_C04(o, s.o, s.regen, ExpToks(s), ObsOf(e.pkg))
-       \cup (IF e.np # Len(s.paras) THEN {<<"INFO", "paragraph-count", e.op.op>>} ELSE {})
+\* raw witnesses of the package saved after this step (s = reference state after the step, o = observed
+\* foreign package). If nothing was saved C04 makes no claim: reported as a note, never a verdict.
+Raw(s, o, e) ==
+  IF e.sv # "ok" THEN {<<"INFO", e.sv>>}
+  ELSE Viol_C04(o, s, ObsOf(e.pkg))
+       \cup (IF e.np # Len(s.paras) THEN {<<"INFO", "paragraph-count">>} ELSE {})
 
-TInit == l = 1 /\ cur = Closed /\ oo = NoObs /\ wit = {}
+\* a witness is attributed to the operation after which it first shows in its behaviour
+Sigs(raw, old, name) == {(IF w[1] = "INFO" THEN <<"INFO", name, w[2]>> ELSE <<"C04", name>> \o w) : w \in raw \ old}
+
+TInit == l = 1 /\ cur = Closed /\ oo = NoObs /\ prev = {} /\ wit = {}
 
 TReset == /\ l <= Len(Trace) /\ Trace[l].ev = "reset"
-          /\ cur' = Closed /\ oo' = NoObs /\ wit' = wit /\ l' = l + 1
+          /\ cur' = Closed /\ oo' = NoObs /\ prev' = {} /\ wit' = wit /\ l' = l + 1
 
 TStep == /\ l <= Len(Trace) /\ Trace[l].ev = "step"
          /\ LET e == Trace[l] IN
@@ -52,16 +56,18 @@ TStep == /\ l <= Len(Trace) /\ Trace[l].ev = "step"
               THEN LET m == ModelOf(e.op.pkg)
                        s == InitOf(m)
                        o == ObsOf(e.orig)
-                   IN /\ cur' = s /\ oo' = o
-                      /\ wit' = AddWit(wit, Mach(m, o) \cup Judge(s, o, e), e.case)
+                       raw == Raw(s, o, e)
+                   IN /\ cur' = s /\ oo' = o /\ prev' = raw
+                      /\ wit' = AddWit(wit, Mach(m, o) \cup Sigs(raw, {}, "Open"), e.case)
               ELSE LET s == Apply(cur, e.op, NoChoice)
-                   IN /\ cur' = s /\ oo' = oo
-                      /\ wit' = AddWit(wit, Judge(s, oo, e), e.case)
+                       raw == Raw(s, oo, e)
+                   IN /\ cur' = s /\ oo' = oo /\ prev' = raw
+                      /\ wit' = AddWit(wit, Sigs(raw, prev, e.op.op), e.case)
          /\ l' = l + 1
 
 TDone == /\ l = Len(Trace) + 1
          /\ PrintT(<<"WZDONE", l - 1, ToJson(wit)>>)
-         /\ l' = l + 1 /\ UNCHANGED <<cur, oo, wit>>
+         /\ l' = l + 1 /\ UNCHANGED <<cur, oo, prev, wit>>
 
 TNext == TReset \/ TStep \/ TDone
 TSpec == TInit /\ [][TNext]_tvars
